@@ -379,3 +379,55 @@ def rule_falsyzero(ctx, prop: str) -> RuleResult:
         raise AnalysisError(f"FALSYZERO: expected >= 5 reads of an int dimension field, found {n_reads}")
     res.floor = 5
     return res
+
+
+def rule_navattr(ctx, prop: str) -> RuleResult:
+    """Cursor navigation stays inside the child block the cursor belongs to (`body` vs
+    `orelse`, `args`, `preds` ...).  In `core/internal_cursors.py` that block is always
+    obtained through the cursor's own attribute (`self._attr`, `self._path[-1][0]`); a
+    navigation method that names a block literally (`.body()`, `_child_block("body")`)
+    navigates the then-branch for a cursor that sits in the else-branch.  The two selector
+    methods `Node.body` / `Node.orelse` themselves are the only literal uses."""
+    ix = ctx.ix
+    res = RuleResult("NAVATTR")
+    IC_ = "src/exo/core/internal_cursors.py"
+    m = ix.module(IC_)
+    n = 0
+    for f in m.funcs.values():
+        if not isinstance(f.node, ast.FunctionDef):
+            continue
+        for k in f.body_nodes():
+            lit = None
+            if isinstance(k, ast.Call) and isinstance(k.func, ast.Attribute):
+                if k.func.attr in ("body", "orelse") and not k.args:
+                    lit = f".{k.func.attr}()"
+                if k.func.attr in ("_child_block", "_child_node") and k.args and isinstance(k.args[0], ast.Constant) and isinstance(k.args[0].value, str):
+                    lit = f'{k.func.attr}("{k.args[0].value}")'
+            if lit is None:
+                continue
+            n += 1
+            res.instances += 1
+            res.nontrivial += 1
+            res.analysed.append(f"{IC_}:{f.qualname}")
+            ok = f.node.name in ("body", "orelse") and lit.startswith("_child_block")
+            res.ob(ok)
+            res.sample(f"{f.qualname}: literal block selector {lit} ({'the selector method itself' if ok else 'in navigation code'})")
+            if not ok:
+                res.add(
+                    Finding("NAVATTR", IC_, k.lineno, f.qualname, lit,
+                            f"{f.qualname} selects the block {lit} literally instead of the block the cursor belongs to (`self._attr`): for a cursor in an else-branch, expand()/the rest-of-block "
+                            f"used by inline_assign, sink_alloc, fold_buffer … is computed on the then-branch (truncated or overlong block)")
+                )
+    # and expand() does consult the cursor's own attribute
+    ex = m.funcs.get("Block.expand")
+    if ex is None:
+        raise AnalysisError("anchor vanished: Block.expand")
+    res.instances += 1
+    ok = any(isinstance(k, ast.Attribute) and k.attr == "_attr" for k in ex.body_nodes())
+    res.ob(ok)
+    if not ok:
+        res.add(Finding("NAVATTR", IC_, ex.lineno, "Block.expand", "no-_attr", "Block.expand does not consult the block attribute of the cursor"))
+    if n < 2:
+        raise AnalysisError(f"NAVATTR: expected the two selector methods in internal_cursors.py, found {n} literal selectors")
+    res.floor = 3
+    return res
